@@ -58,6 +58,16 @@ StageSquares(i, b) ==
            [] i = 4 -> IF Family = "EPb" THEN Squares ELSE (IF Sub = 0 THEN {0, 7, 56, 63, 34, 37} ELSE {0, 63})
            [] i = 5 -> AlignedWith({s - 16 : s \in Where(b, "p")} \cup Where(b, "P")))
     [] Family = "CASTLE" -> IF i <= 6 THEN {<<4, 0, 7, 60, 56, 63>>[i]} ELSE Squares
+    [] Family = "EPALLw" ->     \* every file: White pushes, Black captures, kings on a few far squares
+        (CASE i = 1 -> RankSet(1)
+           [] i = 2 -> {t \in RankSet(3) : \E q \in Where(b, "P") : Abs(FileOf(q) - FileOf(t)) = 1}
+           [] i = 3 -> {56, 63, 60}
+           [] i = 4 -> {0, 7, 4})
+    [] Family = "EPALLb" ->
+        (CASE i = 1 -> RankSet(6)
+           [] i = 2 -> {t \in RankSet(4) : \E q \in Where(b, "p") : Abs(FileOf(q) - FileOf(t)) = 1}
+           [] i = 3 -> {0, 7, 4}
+           [] i = 4 -> {56, 63, 60})
     [] Family = "RAND" -> Squares
     [] Family \in {"PINw", "PINb"} ->      \* king - own man - enemy slider on one line (built for White, mirrored for PINb)
         (CASE i = 1 -> IF Sub = 0 THEN Squares ELSE FilesOf({(Sub - 1) % 8})            \* K
@@ -80,6 +90,8 @@ StageMen ==
     [] Family = "KPK7b" -> << {"k"}, {"K"}, {"p"} >>
     [] Family = "EPw" -> << {"P"}, {"p"}, {"k"}, {"K"} >>
     [] Family = "EPb" -> << {"p"}, {"P"}, {"K"}, {"k"} >>
+    [] Family = "EPALLw" -> << {"P"}, {"p"}, {"k"}, {"K"} >>
+    [] Family = "EPALLb" -> << {"p"}, {"P"}, {"K"}, {"k"} >>
     [] Family = "EPXw" -> << {"P"}, {"p"}, {"k"}, {"K"}, {"R","B","Q"} >>
     [] Family = "EPXb" -> << {"p"}, {"P"}, {"K"}, {"k"}, {"r","b","q"} >>
     [] Family = "RAND" -> << {"K"}, {"k"} >> \o [j \in 1..(IF Sub = 0 THEN 8 ELSE Sub) |-> Men \ {"K", "k"}]
@@ -93,8 +105,8 @@ NStages == Len(StageMen)
 MirroredFamilies == {"PINb"}     \* built with White's men, then colour-mirrored
 
 StmChoices ==
-  CASE Family \in {"EPw","EPXw"} -> {"w"}
-    [] Family \in {"EPb","EPXb"} -> {"b"}
+  CASE Family \in {"EPw","EPXw","EPALLw"} -> {"w"}
+    [] Family \in {"EPb","EPXb","EPALLb"} -> {"b"}
     [] Family \in {"PINw","PINb"} -> {"w"}
     [] OTHER -> {"w","b"}
 
@@ -267,7 +279,7 @@ LemmasOK(p, ms) ==
   /\ (Lemmas >= 2) => Assert(Lemma2(p, ms), <<"spec lemma 2 (mirror/flip) fails at", WriteFen(p)>>)
 
 FirstPly(p, ms) ==   \* EP families: the first ply is the double push of the staged pawn
-  IF depth = 0 /\ Family \in {"EPw","EPb","EPXw","EPXb"} THEN {m \in ms : IsDouble(p, m)} ELSE ms
+  IF depth = 0 /\ Family \in {"EPw","EPb","EPXw","EPXb","EPALLw","EPALLb"} THEN {m \in ms : IsDouble(p, m)} ELSE ms
 
 Play ==
   /\ stage = Done
